@@ -54,6 +54,7 @@ CRITERIA = [
     ("end_thr2", lambda: [mc.seqid, mc.overlap_end_threshold(2)]),
     ("any_thr1", lambda: [mc.seqid, mc.overlap_any_threshold(1)]),
     ("any_thr2", lambda: [mc.seqid, mc.overlap_any_threshold(2)]),
+    ("any_thr0", lambda: [mc.seqid, mc.overlap_any_threshold(0)]),
     ("start_thr1", lambda: [mc.seqid, mc.overlap_start_threshold(1)]),
     ("custom_two_max", lambda: [mc.seqid, mc.overlap_end_inclusive, two_max]),
     ("custom_falsy", lambda: [mc.seqid, overlap_falsy]),
@@ -70,6 +71,7 @@ REF = {
     "end_thr2": lambda a, b, s, e, n: a <= s <= b + 2,
     "any_thr1": lambda a, b, s, e, n: a - 1 <= e + 1 <= b + 1 or a <= s <= b + 1,
     "any_thr2": lambda a, b, s, e, n: a - 2 <= e + 1 <= b + 1 or a <= s <= b + 2,
+    "any_thr0": lambda a, b, s, e, n: a <= e + 1 <= b + 1 or a <= s <= b,
     "start_thr1": lambda a, b, s, e, n: a - 1 <= e + 1 <= b + 1,
     "custom_two_max": lambda a, b, s, e, n: a <= s <= b + 1 and n < 2,
     "custom_falsy": lambda a, b, s, e, n: a <= s <= b + 1,
